@@ -36,7 +36,7 @@ func init() {
 	core.Register(&core.Info{
 		ID: "C05", Level: "exploration",
 		Rule: "case kinds: (example) the repository's 2 MiB example image; (shapes) a generated model-valid TDVF image measured for each of the six GCE shapes through LaunchOptionsDefaultTDHOBBug in legacy and early-accept mode plus tdx.UnsignedTDX over a random shape list; " +
-			"(layout) generated images 8 KiB..2 MiB with 2..8 metadata sections in any declared order (types BFV/CFV/TD-HOB/TempMem, EXTEND on/off, undefined attribute bits, memory anywhere below 2^40: touching, straddling 3/4 GiB, data ranges partitioned or overlapping/unaligned, descriptor at any offset, extra GUID-table entries) " +
+			"(layout) generated images 8 KiB..2 MiB with 2..8 metadata sections (+0..2 empty temporary-memory sections at any position, incl. before the TD HOB and last) in any declared order (types BFV/CFV/TD-HOB/TempMem, EXTEND on/off, undefined attribute bits, memory anywhere below 2^40: touching, straddling 3/4 GiB, data ranges partitioned or overlapping/unaligned, descriptor at any offset, extra GUID-table entries) " +
 			"with generated non-overlapping RAM bank lists (touching, nested around sections, zero length, unsorted, unaligned, straddling 4 GiB, above 2^40) in the three launch modes; " +
 			"(retention, inside shapes/layout/example) the regions of the previous 1-3 Extract* calls are kept while later calls for other modes / bank lists / images run, then looked at again; (concurrent) 4-16 goroutines call tdx.MRTD and ovmf.Extract* at the same time for different shapes / bank lists / modes on the same and on different images; " +
 			"(grid) small-scope exhaustive: every placement of <=2 extra sections and <=2 banks (incl. an empty bank) on a 6-point page grid around 4 GiB, both legacy modes. " +
@@ -47,7 +47,7 @@ func init() {
 		Assumptions: []string{
 			"the default launch configuration describes no guest RAM in the TD-HOB (tdx.LaunchOptionsDefault carries no banks and ovmf.ExtractMaterialGuestPhysicalRegions takes none); a bank list passed together with default mode is counted, not judged",
 			"unaccepted memory is described bank by bank: adjacent banks are not merged (NUMA nodes stay separate descriptors)",
-			"model-valid = signature/version/length, types 0..3, exactly one TD-HOB, >=1 BFV, FV data inside the image with data size = memory size and sizes adding up to the image size, page-aligned non-empty non-wrapping pairwise-disjoint memory ranges, TD-HOB section large enough for its list; anything else carries no verdict here (C08)",
+			"model-valid = signature/version/length, types 0..3, exactly one TD-HOB, >=1 BFV, FV data inside the image with data size = memory size and sizes adding up to the image size, page-aligned non-wrapping pairwise-disjoint memory ranges that are non-empty except for temporary memory (an empty temporary-memory section contributes its length-0 descriptor in declared order, no records, and does not take part in RAM-minus-sections), TD-HOB section large enough for its list; anything else carries no verdict here (C08)",
 			"temporary-memory sections flagged EXTEND have no contents defined by the property: in default mode their MRTD is counted, not judged (legacy modes measure zeros like every other temporary memory)",
 			"machine shapes: 4 GiB per vCPU, 3 GiB below the hole, 2 MiB firmware window below 4 GiB, NUMA nodes of 176 GiB above 4 GiB",
 		},
@@ -189,6 +189,9 @@ func features(secs []tdxref.Section, banks, un []tdxref.Range, m tdxref.Mode, ex
 		if s.MemBase < 4*gib && s.End() > 4*gib {
 			f["sec-straddles-4g"] = true
 		}
+		if s.MemSize == 0 {
+			f["zero-size-sec"] = true
+		}
 	}
 	if ext && noext {
 		f["extend-mixed"] = true
@@ -197,9 +200,22 @@ func features(secs []tdxref.Section, banks, un []tdxref.Range, m tdxref.Mode, ex
 	} else {
 		f["extend-none"] = true
 	}
+	for i, s := range secs {
+		if s.MemSize != 0 {
+			continue
+		}
+		if i == len(secs)-1 {
+			f["zero-size-last"] = true
+		}
+		for j := i + 1; j < len(secs); j++ {
+			if secs[j].Type == tdxref.TypeTDHOB {
+				f["zero-size-before-hob"] = true
+			}
+		}
+	}
 	for i := range secs {
 		for j := range secs {
-			if i != j && secs[i].End() == secs[j].MemBase {
+			if i != j && secs[i].MemSize != 0 && secs[j].MemSize != 0 && secs[i].End() == secs[j].MemBase {
 				f["sec-touching"] = true
 			}
 		}
@@ -270,6 +286,7 @@ type runner struct {
 	brk           breaker
 	kept          []*kept
 	retainedOK    int
+	zeroBeforeHOB int
 	concOK        int
 }
 
@@ -379,7 +396,7 @@ func allZero(b []byte) bool {
 
 func hasTempExtend(secs []tdxref.Section) bool {
 	for _, s := range secs {
-		if s.Type == tdxref.TypeTempMem && s.Attr&1 != 0 {
+		if s.Type == tdxref.TypeTempMem && s.Attr&1 != 0 && s.MemSize != 0 { // an empty section has nothing to extend
 			return true
 		}
 	}
@@ -464,9 +481,18 @@ func (r *runner) measure(i int, kind, gen string, fw []byte, banks []tdxref.Rang
 				r.earlyAttrOff++
 			}
 		}
-		for _, s := range exp.Layout.Sections {
+		for k, s := range exp.Layout.Sections {
 			if !tdxref.Extended(s, m) {
 				r.extendSkipped++
+			}
+			if s.MemSize == 0 {
+				c.Count("zero-size-tempmem/measured-equal/"+m.String(), 1)
+				if k < exp.HOBIndex && m != tdxref.ModeDefault {
+					r.zeroBeforeHOB++
+				}
+				if k == len(exp.Layout.Sections)-1 {
+					c.Count("zero-size-tempmem/declared-last", 1)
+				}
 			}
 		}
 		c.Cell("%s|%s|sec=%s|un=%s|%s", kind, m, bucket(len(exp.Layout.Sections)), bucket(len(exp.Unaccepted)), features(exp.Layout.Sections, mb, exp.Unaccepted, m, feat))
@@ -536,6 +562,38 @@ func (r *runner) caseExample(i int) {
 		r.measure(i, "example", gen+"/generated-banks", fw, genBanks(rr, l.Sections, feat), modes[1:], feat, false)
 	}
 	r.flushKept(i)
+	// directed: the example with one more, EMPTY temporary-memory section (a descriptor of length 0, no pages)
+	// declared first / right before the TD HOB / right after it / last, at bases that touch other sections or RAM.
+	if l != nil {
+		hobAt := 0
+		for k, s := range l.Sections {
+			if s.Type == tdxref.TypeTDHOB {
+				hobAt = k
+			}
+		}
+		for _, d := range []struct {
+			name string
+			pos  int
+			base uint64
+		}{{"first", 0, 0x808000}, {"before-hob", hobAt, 0x80b000}, {"after-hob", hobAt + 1, 0}, {"last", len(l.Sections), 4 * gib}, {"before-hob-and-last", hobAt, 0x100000}} {
+			secs := append([]tdxref.Section{}, l.Sections[:d.pos]...)
+			secs = append(secs, tdxref.Section{MemBase: d.base, Type: tdxref.TypeTempMem})
+			secs = append(secs, l.Sections[d.pos:]...)
+			if d.name == "before-hob-and-last" {
+				secs = append(secs, tdxref.Section{MemBase: 0x809000, Type: tdxref.TypeTempMem, Attr: 1})
+			}
+			fw2 := append([]byte{}, fw...)
+			writeSections(fw2, l.DescriptorOffset, secs)
+			g := gen + "/zero-size-tempmem-" + d.name
+			if !r.selfCheck(i, g, fw2, &spec{Size: len(fw2), DescOff: l.DescriptorOffset, Sections: secs}) {
+				continue
+			}
+			feat := map[string]bool{"directed": true}
+			r.measure(i, "example", g+"/no-ram", fw2, nil, modes, feat, false)
+			r.measure(i, "example", g+"/c3-standard-4", fw2, tdxref.ShapeByName("c3-standard-4").Banks, modes[1:], feat, false)
+			r.flushKept(i)
+		}
+	}
 	c.End(i)
 }
 
@@ -1010,6 +1068,8 @@ func run(c *core.Ctx) {
 	c.Floor("regions-compared-equal", r.regionsOK > 0)
 	c.Count("retention/results-still-equal-at-end-of-window", r.retainedOK)
 	c.Floor("retained-results-rechecked", r.retainedOK > 0)
+	c.Count("zero-size-tempmem/before-tdhob-legacy-equal", r.zeroBeforeHOB)
+	c.Floor("zero-size-tempmem-before-tdhob-measured", r.zeroBeforeHOB > 0)
 	c.Floor("concurrent-calls-compared", r.concOK > 0)
 	for _, sh := range tdxref.Shapes {
 		if r.shapesSeen[sh.Name] {
